@@ -267,7 +267,7 @@ pub fn gap_strategy(sparse: bool) -> BoxedStrategy<u32> {
 
 pub fn gen_strategy(on: bool) -> BoxedStrategy<u16> {
     if on {
-        prop_oneof![75 => Just(0u16), 20 => 1u16..10, 5 => any::<u16>()].boxed()
+        prop_oneof![72 => Just(0u16), 18 => 1u16..10, 4 => any::<u16>(), 3 => Just(65535u16), 2 => Just(65534u16), 1 => Just(256u16)].boxed()
     } else {
         Just(0u16).boxed()
     }
